@@ -96,6 +96,21 @@ func ruleDT12(c *Ctx) {
 						continue
 					}
 					inBody++
+					// one append that adds several elements (append(out, a, b), append(out, xs...))
+					if len(ap.Call.Args) == 2 {
+						spread := true
+						if lit, ok := ap.Call.Args[1].(*ssa.Slice); ok {
+							if _, ok := lit.X.(*ssa.Alloc); ok {
+								spread = false
+							}
+						}
+						if k, isConst := ap.Call.Args[1].(*ssa.Const); isConst && k.Value == nil {
+							spread = false // append(out) with nothing
+						}
+						if elems := variadicElems(ap.Call.Args[1:]); spread || len(elems) > 1 {
+							bad = fmt.Sprintf("the append at %s adds several elements (or a whole slice) for one element read", c.Pos(ap.Pos()))
+						}
+					}
 					// an append inside a loop nested in the reading loop: many elements per element read
 					if inner := enclosingLoopHeader(ap.Block()); inner != nil && inner != hdr && body[inner] {
 						bad = fmt.Sprintf("the append at %s sits in a loop nested inside the loop that reads the source (%s): several elements can be written for one element read", c.Pos(ap.Pos()), c.Pos(hdr.Instrs[0].Pos()))
@@ -105,7 +120,7 @@ func ruleDT12(c *Ctx) {
 					// two appends in one iteration: only fine when they exclude each other
 					for i, a := range appends {
 						for _, b := range appends[i+1:] {
-							if body[a.Block()] && body[b.Block()] && (canReachWithin(a.Block(), b.Block(), body, hdr) || canReachWithin(b.Block(), a.Block(), body, hdr)) {
+							if body[a.Block()] && body[b.Block()] && (a.Block() == b.Block() || canReachWithin(a.Block(), b.Block(), body, hdr) || canReachWithin(b.Block(), a.Block(), body, hdr)) {
 								bad = fmt.Sprintf("two appends (%s, %s) can run in one iteration of the loop that reads the source", c.Pos(a.Pos()), c.Pos(b.Pos()))
 							}
 						}
